@@ -104,6 +104,8 @@ type Opts struct {
 	PeerAddrs   string // comma separated http://host:port list as seen by this node
 	RaftAddr    string // this node's own raft listen URL
 	JoinCluster bool
+	// ClusterExtraJSON is spliced into the cluster configuration object (e.g. `"Databases": 4`)
+	ClusterExtraJSON string
 	// KeepLog writes the full output to Dir/server.out as well
 	KeepLog bool
 	// ConfLayout chooses how the configuration file is laid out (what a user's file may look like):
@@ -157,6 +159,9 @@ func Start(o Opts) (*Server, error) {
 	if o.Cluster {
 		cc := fmt.Sprintf(`{"IsCluster": true, "PeerAddrs": %q, "RaftAddr": %q, "PeerIDs": "", "NodeID": %d, "KVPort": %d, "JoinCluster": %v}`,
 			o.PeerAddrs, o.RaftAddr, o.NodeID, o.Port, o.JoinCluster)
+		if o.ClusterExtraJSON != "" {
+			cc = cc[:len(cc)-1] + ", " + o.ClusterExtraJSON + "}"
+		}
 		ccPath := filepath.Join(o.Dir, "cluster_config.json")
 		if err := os.WriteFile(ccPath, []byte(cc), 0o644); err != nil {
 			return nil, err
